@@ -45,6 +45,12 @@ impl IncanLanguageServer {
         }
     }
 
+    /// Verification-only: the shared document map (stored text/version; lock state via `try_read`/`try_write`).
+    #[cfg(incan_verif)]
+    pub fn verif_documents(&self) -> Arc<RwLock<HashMap<Url, DocumentState>>> {
+        self.documents.clone()
+    }
+
     /// Analyze a document and publish diagnostics
     async fn analyze_document(&self, uri: &Url, source: &str, version: i32) {
         let mut diagnostics = Vec::new();
@@ -57,6 +63,8 @@ impl IncanLanguageServer {
                 for error in &errors {
                     diagnostics.push(compile_error_to_diagnostic(error, source, uri));
                 }
+                #[cfg(incan_verif)]
+                crate::lsp::verif_gate::gate("publish_err", uri, Some(version)).await;
                 self.client
                     .publish_diagnostics(uri.clone(), diagnostics, Some(version))
                     .await;
@@ -72,6 +80,8 @@ impl IncanLanguageServer {
                 for error in &errors {
                     diagnostics.push(compile_error_to_diagnostic(error, source, uri));
                 }
+                #[cfg(incan_verif)]
+                crate::lsp::verif_gate::gate("publish_err", uri, Some(version)).await;
                 self.client
                     .publish_diagnostics(uri.clone(), diagnostics, Some(version))
                     .await;
@@ -107,6 +117,8 @@ impl IncanLanguageServer {
 
         // Store AST for hover/goto
         {
+            #[cfg(incan_verif)]
+            crate::lsp::verif_gate::gate("store", uri, Some(version)).await;
             let mut docs = self.documents.write().await;
             docs.insert(
                 uri.clone(),
@@ -120,6 +132,8 @@ impl IncanLanguageServer {
         }
 
         // Publish diagnostics (even if empty, to clear old ones)
+        #[cfg(incan_verif)]
+        crate::lsp::verif_gate::gate("publish", uri, Some(version)).await;
         self.client
             .publish_diagnostics(uri.clone(), diagnostics, Some(version))
             .await;
@@ -141,6 +155,8 @@ impl IncanLanguageServer {
         };
         let entry_base = entry_path.parent().unwrap_or(Path::new(".")).to_path_buf();
 
+        #[cfg(incan_verif)]
+        crate::lsp::verif_gate::gate("deps_read", uri, Some(_entry_version)).await;
         let docs = self.documents.read().await;
 
         let mut result: Vec<(String, Program)> = Vec::new();
@@ -186,6 +202,8 @@ impl IncanLanguageServer {
                             diags.push(compile_error_to_diagnostic(e, &dep_source, &u));
                         }
                         let ver = dep_doc.map(|d| d.version);
+                        #[cfg(incan_verif)]
+                        crate::lsp::verif_gate::gate("deps_publish", uri, Some(_entry_version)).await;
                         self.client.publish_diagnostics(u.clone(), diags, ver).await;
                     }
 
@@ -218,6 +236,8 @@ impl IncanLanguageServer {
                             diags.push(compile_error_to_diagnostic(e, &dep_source, &u));
                         }
                         let ver = dep_doc.map(|d| d.version);
+                        #[cfg(incan_verif)]
+                        crate::lsp::verif_gate::gate("deps_publish", uri, Some(_entry_version)).await;
                         self.client.publish_diagnostics(u.clone(), diags, ver).await;
                     }
 
@@ -243,6 +263,8 @@ impl IncanLanguageServer {
             // Dependency parsed successfully: clear old dependency diagnostics if any.
             if let Some(u) = dep_uri.clone() {
                 let ver = dep_doc.map(|d| d.version);
+                #[cfg(incan_verif)]
+                crate::lsp::verif_gate::gate("deps_publish", uri, Some(_entry_version)).await;
                 self.client.publish_diagnostics(u.clone(), vec![], ver).await;
             }
 
@@ -510,10 +532,14 @@ impl LanguageServer for IncanLanguageServer {
         let uri = params.text_document.uri;
 
         // Remove document from cache
+        #[cfg(incan_verif)]
+        crate::lsp::verif_gate::gate("close_lock", &uri, None).await;
         let mut docs = self.documents.write().await;
         docs.remove(&uri);
 
         // Clear diagnostics
+        #[cfg(incan_verif)]
+        crate::lsp::verif_gate::gate("close_publish", &uri, None).await;
         self.client.publish_diagnostics(uri, vec![], None).await;
     }
 
